@@ -208,6 +208,31 @@ func c17(r *Report) {
 	})
 
 	r.Guard("C17.R3", "a response is attached only to a known, not yet reset request", func() {
+		// every message not marked skip-logging reaches the log: from the not-skipping edge of
+		// the modifier, no return is reachable without the Record call (a filter on status,
+		// method or size leaves an entry pending for ever, or out of the log)
+		if LT := w.Named("har", "Logger"); LT != nil {
+			for _, pr := range [][2]string{{"ModifyRequest", "(*M/har.Logger).RecordRequest"}, {"ModifyResponse", "(*M/har.Logger).RecordResponse"}} {
+				f := w.method(LT, pr[0])
+				if f == nil || f.Blocks == nil {
+					r.Undecided("(*M/har.Logger)."+pr[0], "UNRESOLVED")
+					continue
+				}
+				r.Touch(f)
+				g := G(f)
+				sk := plainCalls(f, "(*M.Context).SkippingLogging")
+				okRec := len(sk) == 1
+				if okRec {
+					for _, e := range branchesOn(sk[0]) {
+						isRec := func(i ssa.Instruction) bool { _, y := isCall(i, pr[1]); return y }
+						if g.PathTo(blockStart(e.False), true, isRec, isReturn) != nil {
+							okRec = false
+						}
+					}
+				}
+				r.Decide("path", "(*M/har.Logger)."+pr[0]+": every message not marked skip-logging is recorded", okRec, short(pr[1])+" lies on every path from the not-skipping edge to the return", "some messages bypass the log (an early return besides the skip-logging test): their request stays pending for ever or is missing from every export", f.Pos())
+			}
+		}
 		ok := false
 		var pos token.Pos = rs.Pos()
 		for _, in := range instrs(rs) {
